@@ -7,7 +7,12 @@
 //     syntactic classification of the loop body, the normalised callees of the body, and the scope
 //     of the package (consensus path / rpc-cli-test tooling);
 //   - every use of set.Set.ToSlice and what happens to its result;
-//   - every time.Now / math/rand / `go func` site, with a flag when it is only a telemetry argument.
+//   - every time.Now / math/rand / `go func` site, with a flag when it is only a telemetry argument;
+//   - every concurrency / timing construct (conc_sites): go statements, make(chan), channel send / receive / range / close,
+//     select statements (number of communication cases, default), timers and timeouts (time.After / NewTimer / NewTicker /
+//     Tick / AfterFunc / Sleep and the methods of *time.Timer / *time.Ticker, context.WithTimeout / WithDeadline / WithCancel
+//     and Context.Done / Deadline / Err), every use of package sync / sync/atomic, every query of package runtime /
+//     runtime/debug — each with the flags "inside a go statement" and "communication of a select clause".
 //
 // This module is separate from verifharness because it needs x/tools (own go.mod / go.sum).
 package main
@@ -80,6 +85,13 @@ type incSite struct {
 	scp           string
 }
 
+// concurrency / timing construct
+type concSite struct {
+	pkg, fn, kind, what string
+	inGo, inSelect      bool
+	scp                 string
+}
+
 // process-local mutable state: a field of a struct declared in a keeper / precompile package, or a package-level variable of
 // a consensus package, whose type (looked into up to three levels of the repository's own struct types) holds a Go map, a
 // channel, or a sync / atomic / cache object — state that lives in this process and not in the store.
@@ -96,6 +108,7 @@ type walker struct {
 	sites    *[]mapSite
 	uses     *[]tsUse
 	incs     *[]incSite
+	concs    *[]concSite
 	ordMap   map[string]int
 	ordTs    map[string]int
 	ordInc   map[string]int
@@ -731,6 +744,113 @@ func (w *walker) classifyToSlice(call *ast.CallExpr) string {
 	return "UseEscapes"
 }
 
+// inside the function literal / call of a go statement?
+func (w *walker) insideGo() bool {
+	for _, p := range w.parents[:len(w.parents)-1] {
+		if _, ok := p.(*ast.GoStmt); ok {
+			return true
+		}
+	}
+	return false
+}
+
+// is n (the node on top of the parent stack) the communication of a select clause (case ch <- v: / case x := <-ch:)?
+func (w *walker) insideSelectComm(n ast.Node) bool {
+	for i := len(w.parents) - 2; i >= 0; i-- {
+		switch p := w.parents[i].(type) {
+		case *ast.CommClause:
+			return p.Comm != nil && n.Pos() >= p.Comm.Pos() && n.End() <= p.Comm.End()
+		case *ast.FuncLit:
+			return false
+		}
+	}
+	return false
+}
+
+func (w *walker) addConc(n ast.Node, kind, what string) {
+	*w.concs = append(*w.concs, concSite{pkg: w.rel, fn: w.fnKey, kind: kind, what: what, inGo: w.insideGo(), inSelect: w.insideSelectComm(n), scp: scopeOf(w.rel)})
+}
+
+func isChan(t types.Type) bool {
+	if t == nil {
+		return false
+	}
+	_, ok := t.Underlying().(*types.Chan)
+	return ok
+}
+
+var timerFuncs = map[string]bool{"After": true, "NewTimer": true, "NewTicker": true, "Tick": true, "AfterFunc": true, "Sleep": true}
+var deadlineFuncs = map[string]bool{"WithTimeout": true, "WithDeadline": true, "WithCancel": true, "WithTimeoutCause": true,
+	"WithDeadlineCause": true, "WithCancelCause": true, "AfterFunc": true}
+
+// package-qualified identifiers of time / context / sync / sync/atomic / runtime / runtime/debug (types are not uses)
+func (w *walker) concOfPkgSelector(sel *ast.SelectorExpr) {
+	id, ok := sel.X.(*ast.Ident)
+	if !ok {
+		return
+	}
+	pn, ok := w.p.TypesInfo.Uses[id].(*types.PkgName)
+	if !ok {
+		return
+	}
+	if _, isType := w.p.TypesInfo.Uses[sel.Sel].(*types.TypeName); isType {
+		return
+	}
+	switch path := pn.Imported().Path(); path {
+	case "time":
+		if timerFuncs[sel.Sel.Name] {
+			w.addConc(sel, "CkTimer", "time."+sel.Sel.Name)
+		}
+	case "context":
+		if deadlineFuncs[sel.Sel.Name] {
+			w.addConc(sel, "CkDeadline", "context."+sel.Sel.Name)
+		}
+	case "sync":
+		w.addConc(sel, "CkSync", "sync."+sel.Sel.Name)
+	case "sync/atomic":
+		w.addConc(sel, "CkSync", "atomic."+sel.Sel.Name)
+	case "runtime":
+		w.addConc(sel, "CkRuntime", "runtime."+sel.Sel.Name)
+	case "runtime/debug":
+		w.addConc(sel, "CkRuntime", "debug."+sel.Sel.Name)
+	}
+}
+
+// methods of *time.Timer / *time.Ticker, of the sync / sync/atomic types and the time-dependent methods of context.Context
+func (w *walker) concOfMethod(sel *ast.SelectorExpr) {
+	s := w.p.TypesInfo.Selections[sel]
+	if s == nil {
+		return
+	}
+	fn, ok := s.Obj().(*types.Func)
+	if !ok || fn.Pkg() == nil {
+		return
+	}
+	recv := ""
+	if sig, ok := fn.Type().(*types.Signature); ok && sig.Recv() != nil {
+		t := sig.Recv().Type()
+		if p, ok := t.(*types.Pointer); ok {
+			t = p.Elem()
+		}
+		if n, ok := t.(*types.Named); ok {
+			recv = n.Obj().Name()
+		}
+	}
+	name := recv + "." + fn.Name()
+	switch fn.Pkg().Path() {
+	case "time":
+		if recv == "Timer" || recv == "Ticker" {
+			w.addConc(sel, "CkTimer", name)
+		}
+	case "context":
+		if fn.Name() == "Done" || fn.Name() == "Deadline" || fn.Name() == "Err" {
+			w.addConc(sel, "CkDeadline", name)
+		}
+	case "sync", "sync/atomic":
+		w.addConc(sel, "CkSync", name)
+	}
+}
+
 func (w *walker) visitFunc(key string, body *ast.BlockStmt) {
 	if body == nil {
 		return
@@ -755,9 +875,52 @@ func (w *walker) visitFunc(key string, body *ast.BlockStmt) {
 				*w.sites = append(*w.sites, mapSite{pkg: w.rel, fn: key, ord: ord, expr: w.exprNorm(x.X), typ: w.typeStr(t),
 					syn: w.classifyRange(x), scp: scopeOf(w.rel), calls: w.calls(x.Body)})
 			}
+			if isChan(t) {
+				w.addConc(x, "CkRangeChan", w.exprNorm(x.X))
+			}
 		case *ast.GoStmt:
 			w.addInc("IncGoFunc", false)
+			w.addConc(x, "CkGo", "go")
+		case *ast.SelectStmt:
+			ncomm, def := 0, "false"
+			for _, c := range x.Body.List {
+				if cc, ok := c.(*ast.CommClause); ok {
+					if cc.Comm == nil {
+						def = "true"
+					} else {
+						ncomm++
+					}
+				}
+			}
+			w.addConc(x, fmt.Sprintf("(CkSelect %d %s)", ncomm, def), "select")
+		case *ast.SendStmt:
+			w.addConc(x, "CkSend", w.exprNorm(x.Chan))
+		case *ast.UnaryExpr:
+			if x.Op == token.ARROW {
+				w.addConc(x, "CkRecv", w.exprNorm(x.X))
+			}
+		case *ast.SelectorExpr:
+			w.concOfPkgSelector(x)
+			w.concOfMethod(x)
 		case *ast.CallExpr:
+			if id, ok := x.Fun.(*ast.Ident); ok {
+				if _, isB := w.p.TypesInfo.Uses[id].(*types.Builtin); isB {
+					if id.Name == "close" && len(x.Args) == 1 {
+						w.addConc(x, "CkClose", w.exprNorm(x.Args[0]))
+					}
+					if id.Name == "make" && len(x.Args) >= 1 {
+						if ct, ok := w.p.TypesInfo.TypeOf(x.Args[0]).(*types.Chan); ok {
+							buffered := "false"
+							if len(x.Args) > 1 {
+								if tv, ok := w.p.TypesInfo.Types[x.Args[1]]; !ok || tv.Value == nil || tv.Value.String() != "0" {
+									buffered = "true"
+								}
+							}
+							w.addConc(x, "(CkMakeChan "+buffered+")", w.typeStr(ct.Elem()))
+						}
+					}
+				}
+			}
 			name := w.calleeName(x.Fun)
 			if strings.HasPrefix(name, "telemetry.") {
 				for _, a := range x.Args {
@@ -1131,6 +1294,7 @@ func main() {
 	var sites []mapSite
 	var uses []tsUse
 	var incs []incSite
+	var concs []concSite
 	var pstate []procState
 	var pubs []publisher
 	nfiles := 0
@@ -1153,7 +1317,7 @@ func main() {
 				}
 			}
 		}
-		w := &walker{decls: decls, p: p, repo: repo, sites: &sites, uses: &uses, incs: &incs, ordMap: map[string]int{}, ordTs: map[string]int{}, ordInc: map[string]int{}}
+		w := &walker{decls: decls, p: p, repo: repo, sites: &sites, uses: &uses, incs: &incs, concs: &concs, ordMap: map[string]int{}, ordTs: map[string]int{}, ordInc: map[string]int{}}
 		files := append([]*ast.File{}, p.Syntax...)
 		sort.Slice(files, func(i, j int) bool {
 			return p.Fset.Position(files[i].Pos()).Filename < p.Fset.Position(files[j].Pos()).Filename
@@ -1276,6 +1440,25 @@ func main() {
 			tele = "true"
 		}
 		fmt.Printf("  mk_inc %s %s %s %d %s %s %s%s\n", coqString(c.pkg), coqString(c.file), coqString(c.fn), c.ord, c.kind, tele, c.scp, sep)
+	}
+	fmt.Println("].")
+	sort.SliceStable(concs, func(i, j int) bool {
+		return less([]string{concs[i].pkg, concs[i].fn}, []string{concs[j].pkg, concs[j].fn})
+	})
+	fmt.Println("(* concurrency / timing constructs: package, function, kind, what, inside a go statement, communication of a select clause, scope *)")
+	fmt.Println("Definition conc_sites : list conc_site := [")
+	for i, c := range concs {
+		sep := ";"
+		if i == len(concs)-1 {
+			sep = ""
+		}
+		b := func(x bool) string {
+			if x {
+				return "true"
+			}
+			return "false"
+		}
+		fmt.Printf("  mk_conc %s %s %s %s %s %s %s%s\n", coqString(c.pkg), coqString(c.fn), c.kind, coqString(c.what), b(c.inGo), b(c.inSelect), c.scp, sep)
 	}
 	fmt.Println("].")
 }
